@@ -55,6 +55,11 @@ type scenario struct {
 	url      string                       // add: url (set when the fixture address is known)
 	good     map[string]string            // relative binary path -> complete content (initial state)
 	goodNew  map[string]string            // relative binary path -> complete content (from the archive)
+	plugin2  string                       // two-command scenarios: a second installation, run to completion afterwards
+	version2 string
+	exts2    []string
+	members2 [][2]string
+	archive2 []byte
 	describe string
 }
 
@@ -141,7 +146,7 @@ func genScenario(r *lib.Rng, id int, kind string, mode string) *scenario {
 		s.addInstalled("core", s.plugin, v)
 	}
 	// a first installation happens next to plugins that work: their databases must keep starting
-	if len(installed) == 0 || r.Chance(2, 3) {
+	if len(installed) == 0 || mode == "chain" || r.Chance(2, 3) {
 		s.addInstalled("core", other, "1.0.0")
 		if r.Bool() {
 			s.addInstalled("core", other, "0.5.0")
@@ -215,7 +220,7 @@ func genScenario(r *lib.Rng, id int, kind string, mode string) *scenario {
 	}
 	if kind == "install" {
 		switch {
-		case len(installed) > 0 && (mode == "reinstall" || (mode == "" && r.Chance(1, 5))): // re-install an existing version
+		case len(installed) > 0 && mode != "chain" && (mode == "reinstall" || (mode == "" && r.Chance(1, 5))): // re-install an existing version
 			s.version = installed[r.Intn(len(installed))]
 			if mode == "reinstall" {
 				s.version = installed[0]
@@ -254,6 +259,20 @@ func genScenario(r *lib.Rng, id int, kind string, mode string) *scenario {
 		s.archive = makeArchive(s.members)
 		s.goodNew["plugins/core/octosql-plugin-"+s.plugin+"/"+s.version+"/"+binName] = content
 		s.exts = [][]string{{}, {"jsonl"}, {"jsonl", "abc"}, {"zz"}}[r.Intn(4)]
+		if mode == "chain" {
+			// the first installation registers long extension names, the second a short one: whatever the first leaves in
+			// the temporary registry file is LONGER than what the second writes there
+			s.exts = [][]string{{"averyveryverylongextensionname", "anotherquitelongextension"}, {"thelongestextensionnameonecouldthinkof"},
+				{"ext-one-long-enough", "ext-two-long-enough", "ext-three-long-enough"}}[r.Intn(3)]
+			s.plugin2, s.version2 = other, []string{"1.1.0", "2.0.0", "1.0.1"}[r.Intn(3)]
+			s.exts2 = [][]string{{"z"}, {}, {"q"}}[r.Intn(3)]
+			bin2 := "octosql-plugin-" + other
+			c2 := stub("core/" + other + "@" + s.version2 + " from the archive")
+			s.members2 = [][2]string{{bin2, c2}}
+			s.archive2 = makeArchive(s.members2)
+			s.goodNew["plugins/core/octosql-plugin-"+other+"/"+s.version2+"/"+bin2] = c2
+			s.describe = "two commands: install killed, then another install completes"
+		}
 	} else {
 		s.slug = []string{"extra", "second", "my-repo"}[r.Intn(3)]
 		s.describe = "repository add " + s.slug
@@ -296,8 +315,17 @@ func newFixture() (*fixture, error) {
 				FileExtensions []string `json:"file_extensions"`
 				ManifestURL    string   `json:"manifest_url"`
 			}
-			doc := map[string]interface{}{"name": "official", "slug": "core", "plugins": []pl{{Name: s.plugin, FileExtensions: s.exts, ManifestURL: base + "/manifest.json"}}}
+			pls := []pl{{Name: s.plugin, FileExtensions: s.exts, ManifestURL: base + "/manifest.json"}}
+			if s.plugin2 != "" {
+				pls = append(pls, pl{Name: s.plugin2, FileExtensions: s.exts2, ManifestURL: base + "/manifest2.json"})
+			}
+			doc := map[string]interface{}{"name": "official", "slug": "core", "plugins": pls}
 			json.NewEncoder(w).Encode(doc)
+		case parts[1] == "manifest2.json":
+			json.NewEncoder(w).Encode(map[string]interface{}{"binary_download_url_pattern": base + "/dl2/{{version}}.tar.gz",
+				"versions": []map[string]string{{"number": s.version2}}})
+		case strings.HasPrefix(parts[1], "dl2/"):
+			w.Write(s.archive2)
 		case parts[1] == "manifest.json":
 			json.NewEncoder(w).Encode(map[string]interface{}{"binary_download_url_pattern": base + "/dl/{{version}}.tar.gz",
 				"versions": []map[string]string{{"number": s.version}}})
@@ -662,7 +690,7 @@ func run(f lib.Flags) error {
 	}
 	defer os.RemoveAll(scratch)
 
-	nInstall, nAdd := 5, 2
+	nInstall, nAdd := 5, 2 // forced: fresh, re-install, first installation, two commands; one random
 	if f.Tier == "thorough" {
 		nInstall, nAdd = 40, 10
 	}
@@ -675,8 +703,8 @@ func run(f lib.Flags) error {
 			kind = "add"
 		}
 		mode := ""
-		if kind == "install" && si < 3 {
-			mode = []string{"fresh", "reinstall", "first"}[si]
+		if kind == "install" && si < 4 {
+			mode = []string{"fresh", "reinstall", "first", "chain"}[si]
 		}
 		s := genScenario(rng.Fork(), si, kind, mode)
 		s.url = fmt.Sprintf("%s/s%d/repos/%s.json", fx.addr, s.id, s.slug)
@@ -734,6 +762,21 @@ func run(f lib.Flags) error {
 			opCoq = fmt.Sprintf("DoAdd (mkRadd %s %s)", lib.CoqBytes(s.slug), lib.CoqBytes(s.url))
 		}
 		cf.Preamble = append(cf.Preamble, fmt.Sprintf("Definition %s_op : c27_op := %s.", pre, opCoq))
+		if s.plugin2 != "" {
+			cv2, err := coqVersion(s.version2)
+			if err != nil {
+				return err
+			}
+			var ms, es []string
+			for _, m := range s.members2 {
+				ms = append(ms, fmt.Sprintf("(%s, %s)", lib.CoqBytes(m[0]), lib.CoqBytes(m[1])))
+			}
+			for _, e := range s.exts2 {
+				es = append(es, lib.CoqBytes(e))
+			}
+			cf.Preamble = append(cf.Preamble, fmt.Sprintf("Definition %s_op2 : c27_op := DoInstall (mkInst %s %s (of_obs (%s)) %s %s %s).", pre,
+				lib.CoqBytes("core"), lib.CoqBytes(s.plugin2), cv2, lib.CoqBytes(string(s.archive2)), lib.CoqList(ms), lib.CoqList(es)))
+		}
 		scenJS := map[string]interface{}{"scenario": si, "what": s.describe, "command": strings.Join(s.command(), " "), "databases": dbsJS}
 		var initJS []string
 		for _, e := range initial {
@@ -869,6 +912,73 @@ func run(f lib.Flags) error {
 						cf.Count("in_class_reinstall_window")
 						break
 					}
+				}
+			}
+		}
+
+		// two commands: the first killed at or after the rename of its version directory (every step and torn prefix of the
+		// registry phase) or in the middle of unpacking; then a second installation runs to completion; then the probes
+		if s.plugin2 != "" {
+			var chain []crashSpec
+			unpackSeen := false
+			for _, sp := range specs {
+				if sp.at == "" {
+					continue
+				}
+				isUnpackWrite := strings.HasPrefix(sp.at, "install.unarchive#") && sp.torn > 1
+				if sp.k >= move || (isUnpackWrite && !unpackSeen) {
+					chain = append(chain, sp)
+					if isUnpackWrite {
+						unpackSeen = true
+					}
+				}
+			}
+			cres := make([]result, len(chain))
+			var wg2 sync.WaitGroup
+			for ci, sp := range chain {
+				wg2.Add(1)
+				go func(ci int, sp crashSpec) {
+					defer wg2.Done()
+					sem <- struct{}{}
+					defer func() { <-sem }()
+					home := filepath.Join(scratch, fmt.Sprintf("ch%d-%d", si, ci))
+					defer os.RemoveAll(home)
+					if err := copyTree(template, home); err != nil {
+						cres[ci].err = err
+						return
+					}
+					env := s.env(home, fx)
+					if code, out := runCLI(cli, append(env, "VERIF_CRASH_AT="+sp.at), 60*time.Second, s.command()...); code != 97 {
+						cres[ci].err = fmt.Errorf("scenario %d crash %q: exit code %d, expected 97: %s", si, sp.at, code, out)
+						return
+					}
+					code2, out2 := runCLI(cli, env, 60*time.Second, "plugin", "install", s.plugin2+"@"+s.version2)
+					after, err := snapshot(home)
+					if err != nil {
+						cres[ci].err = err
+						return
+					}
+					cres[ci].after = after
+					cres[ci].pr = runProbes(cli, s, home, fx)
+					if code2 != 0 {
+						cres[ci].pr.panic = fmt.Sprintf("the second command failed (exit %d): %s", code2, out2)
+					}
+				}(ci, sp)
+			}
+			wg2.Wait()
+			for ci, sp := range chain {
+				res := cres[ci]
+				if res.err != nil {
+					return res.err
+				}
+				prCoq := fmt.Sprintf("(mkProbe %d %s %s)", res.pr.start, lib.CoqList(res.pr.dbs), lib.CoqBool(res.pr.repos))
+				js := map[string]interface{}{"kind": "crash then second command", "scenario": scenJS, "killed_before_step": sp.k, "of_steps": len(steps),
+					"torn_bytes": sp.torn, "crash_at": sp.at, "step": stepsJS[sp.k], "second_command": "plugin install " + s.plugin2 + "@" + s.version2,
+					"start_code": res.pr.start, "databases_after": res.pr.dbsJS, "repositories_readable": res.pr.repos}
+				idx := cf.Add(fmt.Sprintf("KCrash2 %s_f0 %s_cfg %s_op %d %d %s_op2\n   %s\n   %s", pre, pre, pre, sp.k, sp.torn, pre, coqFs(res.after), prCoq), js, len(s.dbs) > 0)
+				cf.Count("two_command_crash_points")
+				if res.pr.panic != "" {
+					cf.Violation(idx, "after the kill and the second command: "+clip(strings.TrimSpace(res.pr.panic), 400), "")
 				}
 			}
 		}
